@@ -1735,6 +1735,10 @@ class Frame:
             try:
                 ca = inspect.getattr_static(o.cls, a)
             except AttributeError:
+                if getattr(o.cls, '_verif_stub_', False):
+                    # a stand-in for a library object (file, socket, ...): a missing member is a gap of the stub, not
+                    # an AttributeError of the program
+                    raise Unsupported(f'{o.cls.__name__} stub has no member {a!r}')
                 raise RaiseEx(AttributeError(f'{o.cls.__name__} object has no attribute {a}'))
             if isinstance(ca, property):
                 return eng.call_function(ca.fget, [o], {})
